@@ -5,6 +5,7 @@
 
 mod bridge;
 mod gen;
+mod monitor;
 mod prng;
 mod props;
 mod refimpl;
@@ -14,6 +15,9 @@ use serde_json::{json, Map, Value};
 use std::path::PathBuf;
 use std::time::Instant;
 use util::*;
+
+#[global_allocator]
+static GLOBAL: monitor::CountingAlloc = monitor::CountingAlloc;
 
 fn verif_dir() -> PathBuf {
     std::env::var("VERIF_DIR").map(PathBuf::from).unwrap_or_else(|_| PathBuf::from("/verif"))
@@ -27,7 +31,9 @@ fn table(id: &str) -> Option<(RunFn, ReplayFn)> {
         "C01" => (props::c01::run, props::c01::replay),
         "C02" => (props::c02::run, props::c02::replay),
         "C03" => (props::c03::run, props::c03::replay),
+        "C04" => (props::c04::run, props::c04::replay),
         "C07" => (props::c07::run, props::c07::replay),
+        "C13" => (props::c13::run, props::c13::replay),
         "C14" => (props::c14::run, props::c14::replay),
         "C19" => (props::c19::run, props::c19::replay),
         _ => return None,
@@ -82,6 +88,17 @@ fn main() {
     }
     // silence lopdf's log output (no logger installed) and panic backtraces by default
     match args[1].as_str() {
+        "worker" => {
+            match args[2].as_str() {
+                "C04" => props::c04::worker_main(&args[3..]),
+                "C13" => props::c13::worker_main(&args[3..]),
+                other => {
+                    eprintln!("no worker for {}", other);
+                    std::process::exit(2);
+                }
+            }
+            std::process::exit(0);
+        }
         "selftest" => {
             let mut ok = true;
             let mut tests = refimpl::selftests();
@@ -175,7 +192,12 @@ fn main() {
                                     }
                                 }
                                 let fs = replay(&wv);
-                                fs.iter().any(|f| signature_matches(&k.signature, &f.signature))
+                                if k.status == "fixed" {
+                                    // a repaired defect must not fail in any way on its witness
+                                    !fs.is_empty()
+                                } else {
+                                    fs.iter().any(|f| signature_matches(&k.signature, &f.signature))
+                                }
                             }
                             None => false,
                         }
